@@ -2,6 +2,7 @@ SPECIFICATION Spec
 CONSTANTS
   Deviations = {}
   Seed = 1
-  Spaces = {"base", "place1", "pair"}
-INVARIANTS WellFormed DeclaredRoundTrip DefaultMapping ExactlyOneResponse EveryDeclaredReturned CallsInOrder PairQInPair PathsAsPlaced
+  EncSpaces = {"enc", "triple"}
+  Spaces = {"base", "place1", "pair", "enc"}
+INVARIANTS WellFormed DeclaredRoundTrip DefaultMapping ExactlyOneResponse ContentNegotiated EveryDeclaredReturned CallsInOrder PairQInPair PathsAsPlaced
 CHECK_DEADLOCK FALSE
